@@ -4,7 +4,9 @@ import math
 
 from hypothesis import strategies as st
 
-from vlib import gen, ops
+import numpy as np
+
+from vlib import gen, ops, streams
 from vlib.runner import Result, SubCheck, Violation
 
 PROPERTY = "C03"
@@ -22,8 +24,8 @@ RULE = ("Integer-grid contexts (exact distances, many ties and duplicates), metr
 ASSUMPTIONS = [
     "only metrics whose distances are exactly computable on the integer grid are generated, as the property says",
     "KNearest cases with more than 200 valid tie completions are skipped and counted",
-    "learning policies underneath are deterministic (EpsilonGreedy(0), UCB1, LinUCB, LinGreedy(0)) for the value "
-    "comparison; the empty-neighbourhood sub-check uses every learning policy",
+    "randomised learning policies underneath are compared exactly through the per-row seed the neighbourhood policy "
+    "derives from the bandit's generator (LinTS excluded: finding D8 of C05)",
     "no arm changes (C03's quantifier is fit + partial_fit*)",
 ]
 NT_FLOOR = 0.3
@@ -42,12 +44,19 @@ def exact_dist(metric, a, b):
 
 
 DET_LPS = ["EpsilonGreedy", "UCB1", "LinUCB", "LinGreedy"]
+# randomised policies are compared too: the library seeds a fresh generator per query row from a seed drawn from the
+# bandit's generator, so a from-scratch bandit constructed with that row seed must reproduce the draw exactly.
+# (LinTS is left out: its per-arm generators are not reseeded per row - finding D8 of C05.)
+RND_LPS = ["EpsilonGreedy", "Softmax", "Popularity", "ThompsonSampling", "Random", "LinGreedy"]
 
 
 @st.composite
 def plan_st(draw, tier):
     kind, arms = draw(gen.arms_st(("int", "str"), 1, 4))
-    lp = draw(gen.lp_st(DET_LPS, arms, deterministic=True))
+    if draw(st.integers(0, 2)):
+        lp = draw(gen.lp_st(DET_LPS, arms, deterministic=True))
+    else:
+        lp = draw(gen.lp_st(RND_LPS, arms, deterministic=False))
     metric = draw(st.sampled_from(gen.EXACT_METRICS))
     which = draw(st.sampled_from(["Radius", "Radius", "KNearest"]))
     d = draw(st.integers(1, 3))
@@ -92,10 +101,11 @@ def strategy(tier, ctx):
     return plan_st(tier)
 
 
-def fresh_expectations(cfg, dec, rew, cx, q):
-    """Expectations of the learning policy alone, trained from scratch on the given rows."""
+def fresh_expectations(cfg, dec, rew, cx, q, seed=None):
+    """Expectations of the learning policy alone, trained from scratch on the given rows (seeded with the row seed
+    the neighbourhood policy derives for this query, so randomised policies draw the same numbers)."""
     from mabwiser.mab import MAB
-    m = MAB(list(cfg["arms"]), ops.make_lp(cfg["lp"]), None, cfg["seed"])
+    m = MAB(list(cfg["arms"]), ops.make_lp(cfg["lp"]), None, cfg["seed"] if seed is None else seed)
     if cfg["lp"][0] in ops.LINEAR:
         m.fit(dec, rew, cx)
         return ops.canon_expectations(m.predict_expectations([q]))
@@ -125,6 +135,7 @@ def evaluate(plan, ctx):
     tol = 1e-9 if linear else 0.0
     for q in plan["queries"]:
         dist = [exact_dist(metric, q, x) for x in cx]
+        row_seed = int(streams.clone_rng(mab._rng).randint(np.iinfo(np.int32).max, size=1)[0])
         out = ops.apply_op(mab, ["predict_expectations", [q]])
         if ops.is_exc(out):
             raise Violation("unexpected_exception", "predict_expectations(%r) raised %s" % (q, ops.short(out)))
@@ -173,7 +184,8 @@ def evaluate(plan, ctx):
         ok = False
         wants = []
         for sel in candidates:
-            want = fresh_expectations(cfg, [dec[i] for i in sel], [rew[i] for i in sel], [cx[i] for i in sel], q)
+            want = fresh_expectations(cfg, [dec[i] for i in sel], [rew[i] for i in sel], [cx[i] for i in sel], q,
+                                      row_seed)
             wants.append((sel, want))
             if ops.same(got, want, rtol=tol, atol=tol):
                 ok = True
